@@ -332,6 +332,8 @@ def plan_c09(pid, tier, seed, ncpu):
         js += con_jobs(bindirs["dbg"], workdir, known, pid, "burst1", seed, 2, rounds=scale(tier, 40, 1000))
         js += con_jobs(bindirs["dbg"], workdir, known, pid, "burstn", seed, 2, rounds=scale(tier, 12, 200))
         js += con_jobs(bindirs["dbg"], workdir, known, pid, "stress", seed, 2, programs=scale(tier, 200, 6000), schedules=scale(tier, 5, 10))
+        # a writer beside threads that only observe (iterate, hold entry references, read the counters): every call returns
+        js += con_jobs(bindirs["dbg"], workdir, known, pid, "observers", seed, 2, programs=scale(tier, 800, 20000), schedules=1)
         # single-threaded multi-step histories under the progress guard (bounded maintenance loops)
         for prof in ("capacity", "general", "safety", "fault"):
             js += seq_jobs(bindirs["dbg"], workdir, known, pid, prof, scale(tier, 60000, 1500000), 50, seed, 2, prefix="c09seq")
